@@ -114,6 +114,12 @@ def retuneChanges (dec : Decoder) : Bool :=
           dec.tune.findPeriod true + dec.tune.findPeriod false < 256 ∧
           (dec.tune.findPeriod true ≠ dec.d ∨ dec.tune.findPeriod false ≠ dec.p))
 
+/-- `newestShardId` after a packet of group `shardId` has been stored: `if len(dec.shardSet) == 0 {
+newestShardId = shardId }` (repair of D13: `empty` = no shard set existed), then the `_itimediff` test -/
+def newestAfter (n : Nat) (empty : Bool) (shardId cur : BitVec 32) : BitVec 32 :=
+  if itimediff (shardId * u32 n) ((if empty then shardId else cur) * u32 n) > 0 then shardId
+  else (if empty then shardId else cur)
+
 structure DecOutO where
   o         : DecO
   recovered : List Fec.Bytes
@@ -137,8 +143,7 @@ def decodeO (C : CodecNew) (o : DecO) (inp : Fec.Bytes) : DecOutO :=
     else
       let g1 := o.gh.get                                         -- pkt := Get()[:len(in)]; copy(pkt, in)
       let pkts := set.pkts ++ [{ p := inp, buf := o.gh.next }]
-      let newest :=
-        if itimediff (shardId * u32 dec1.n) (dec1.newest * u32 dec1.n) > 0 then shardId else dec1.newest
+      let newest := newestAfter dec1.n o.sets.isEmpty shardId dec1.newest
       if pkts.length ≥ dec1.d then
         let plain := pkts.map (·.p)
         let sets1 := storeO { id := shardId, pkts := [] } o.sets    -- all packets popped, the set stays
